@@ -615,11 +615,14 @@ where
         let (dropped_tx, mut dropped_rx) = mpsc::channel(1);
 
         // Build initial state.
+        // Elements that have already been received from this subscription cannot be part of the mirror,
+        // which thus does not present contents that the observed list never had.
+        let error = if self.len > 0 { Some(RecvError::Lagged) } else { None };
         let inner = Arc::new(RwLock::new(MirroredListInner {
             v: Vec::new(),
-            complete: false,
+            complete: self.complete,
             done: false,
-            error: None,
+            error,
             max_size,
         }));
         let inner_task = Arc::downgrade(&inner);
